@@ -388,6 +388,40 @@ def jwe_segments(alg_i: int, seg_fail: int, ek_present: bool, entry: int, has_zi
     return guarded(env, lambda: _jwe_entry(entry, alg_i, ek_present), jwe_patches())
 
 
+def jwe_cbc(kw: bool, cbc_shape: int, iv_i: int, tag_i: int, has_zip: bool, entry: int, v0: bool, v1: bool) -> bool:
+    """
+    pre: 0 <= cbc_shape <= 3 and 0 <= iv_i <= 2 and 0 <= tag_i <= 2 and 0 <= entry <= 3
+    post: _
+    """
+    # A128CBC-HS256: the MAC comparison verdict is the solver's; what CBC decryption yields under a valid tag is the sender's choice
+    rt.tick()
+    hdr = {"alg": "A128KW" if kw else "dir", "enc": "A128CBC-HS256"}
+    if has_zip:
+        hdr["zip"] = "DEF"
+    env = jwe_env(hdr, [v0, v1, v1])
+    env.bind_b64(b"IVSEG", bytes([16, 12, 0][iv_i]))
+    env.bind_b64(b"TAGSEG", bytes([16, 8, 0][tag_i]))
+    env.bind_b64(b"CTSEG", b"" if cbc_shape == 1 else bytes(16))
+    env.ceks = [bytes(32), bytes(32)]
+    env.cbc_shape = cbc_shape
+    key = K32 if not kw else K16
+    tok = b"PROTSEG." + (b"EKSEG" if kw else b"") + b".IVSEG.CTSEG.TAGSEG"
+
+    def run():
+        if entry == 0:
+            return jwe.decrypt_compact(tok, key, algorithms=ALLOWED)
+        if entry == 3:
+            return jwt.decode(tok, key, registry=JWERegistry(algorithms=ALLOWED))
+        value = {"protected": "PROTSEG", "iv": "IVSEG", "ciphertext": "CTSEG", "tag": "TAGSEG"}
+        r = {"encrypted_key": "EKSEG"} if kw else {}
+        if entry == 1:
+            value.update(r)
+        else:
+            value["recipients"] = [r]
+        return jwe.decrypt_json(value, key, algorithms=ALLOWED)
+    return guarded(env, run, jwe_patches())
+
+
 def jwe_json_shape(alg_i: int, has_unprot: bool, has_hdr: bool, has_aad: bool, ek_present: bool, n_rec: int, alg_where: int, v0: bool, v1: bool) -> bool:
     """
     PRE: 0 <= alg_i <= 6 and 0 <= n_rec <= 2 and 0 <= alg_where <= 3
@@ -614,11 +648,58 @@ def _real_jwe(func, args):
     return call, "token=%r" % (tok[:300],)
 
 
+def _real_jwe_cbc(args):
+    """A128CBC-HS256 tokens whose tag is VALID (the sender knows the CEK) over a ciphertext of the sender's choice: well padded, empty,
+    a block with bad padding, or one block of pure padding"""
+    import hmac as _h, hashlib as _hl, struct
+    from vlib import refjose as R
+    from joserfc.jwk import JWKRegistry
+    from cryptography.hazmat.primitives.ciphers import Cipher, algorithms, modes
+    kw, cbc_shape, iv_i, tag_i, has_zip, entry, v0, v1 = args
+    alg = "A128KW" if kw else "dir"
+    jwk = R.test_key("oct16" if kw else "oct32")
+    key = JWKRegistry.import_key(jwk)
+    add, ek, cek = R.key_manage(alg, "A128CBC-HS256", jwk)
+    hdr = {"alg": alg, "enc": "A128CBC-HS256", **({"zip": "DEF"} if has_zip else {})}
+    hseg = _b64(json.dumps(hdr).encode())
+    iv = bytes([16, 12, 0][iv_i])
+    mac_key, enc_key = cek[:16], cek[16:]
+    inner = zlib.compress(b"plaintext")[2:-4] if has_zip else b"plaintext"
+
+    def cbc(raw):
+        e = Cipher(algorithms.AES(enc_key), modes.CBC(iv if len(iv) == 16 else bytes(16))).encryptor()
+        return e.update(raw) + e.finalize()
+    pad = 16 - len(inner) % 16
+    ct = [cbc(inner + bytes([pad]) * pad), b"", cbc(b"\x00" * 16), cbc(bytes([16]) * 16)][cbc_shape]
+    tag = _h.new(mac_key, hseg + iv + ct + struct.pack(">Q", 8 * len(hseg)), _hl.sha256).digest()[:16]
+    if not v1:
+        tag = bytes([tag[0] ^ 1]) + tag[1:]
+    tag = [tag, tag[:8], b""][tag_i]
+    if not v0 and ek:
+        ek = bytes([ek[0] ^ 1]) + ek[1:]
+    segs = [hseg, _b64(ek) if kw else b"", _b64(iv), _b64(ct), _b64(tag)]
+    tok = b".".join(segs)
+
+    def call():
+        if entry == 0:
+            return jwe.decrypt_compact(tok, key, algorithms=ALLOWED)
+        if entry == 3:
+            return jwt.decode(tok, key, registry=JWERegistry(algorithms=ALLOWED))
+        value = {"protected": segs[0].decode(), "iv": segs[2].decode(), "ciphertext": segs[3].decode(), "tag": segs[4].decode()}
+        r = {"encrypted_key": segs[1].decode()} if kw else {}
+        if entry == 1:
+            value.update(r)
+        else:
+            value["recipients"] = [r]
+        return jwe.decrypt_json(value, key, algorithms=ALLOWED)
+    return call, "A128CBC-HS256 token with %s under a %s tag: %r" % (["a well padded", "an EMPTY", "a badly padded", "a padding-only"][cbc_shape] + " ciphertext", "valid" if v1 else "wrong", tok[:200])
+
+
 def replay(func, call):
     import warnings
     warnings.simplefilter("ignore")
     args = eval("(" + call + ",)")
-    built = _real_jws(func, args) if func.startswith(("jws_", "jwt_")) else _real_jwe(func, args)
+    built = _real_jws(func, args) if func.startswith(("jws_", "jwt_")) else (_real_jwe_cbc(args) if func == "jwe_cbc" else _real_jwe(func, args))
     if built is None:
         return {"violated": None, "detail": "no replay for %s" % func}
     fn, desc = built
